@@ -46,7 +46,7 @@ def step (st : State) (line : String) : State × String :=
        let (c', ph') := advance st.base.v st.base.env st.c r ph
        let st' := sync { st with c := c', reqs := st.reqs.map fun x => if x.1 == id then (id, r, ph') else x }
        let tag : Phase → Nat
-         | .start => 0 | .found .. => 1 | .ready .. => 2 | .stopped .. => 3 | .restart .. => 4 | .done _ => 5
+         | .start => 0 | .found .. => 1 | .ready .. => 2 | .stopped .. => 3 | .restart .. => 4 | .done _ => 5 | .replacing .. => 6
        (st', match ph' with
          | .done resp => s!"done {resp.status} nondet={bstr resp.nondet}"
          | _ => if tag ph' == tag ph then "blocked" else "more"))
@@ -60,6 +60,7 @@ def step (st : State) (line : String) : State × String :=
       | .ready o ep i => s!"r{E4.proxyStr o}#{ep}#{i.listen}|{i.upstream}|{i.enabled}"
       | .restart o ep i => s!"R{E4.proxyStr o}#{ep}#{i.listen}|{i.upstream}|{i.enabled}"
       | .stopped o ep i => s!"S{E4.proxyStr o}#{ep}#{i.listen}|{i.upstream}|{i.enabled}"
+      | .replacing x => s!"P{x.name}|{x.listen}|{x.upstream}|{x.enabled}"
       | .done r => s!"d{r.status}"
     let txt := E4.stateStr st.c.s ++ toString st.c.epochs ++ toString st.c.zombies ++ toString st.c.locked ++ toString (st.c.dead.map fun d => (d.1, E4.proxyStr d.2)) ++
       " ".intercalate (st.reqs.map fun x => x.1 ++ "=" ++ phaseStr x.2.2)
